@@ -398,6 +398,44 @@ theorem already_marked_untouched (hi : immix = true) (h : Reachable immix oneSte
   · rw [hc] at hc'; cases hc'
   · cases e
 
+/-- **C17 (reader)** A reader that is not a tracer (`SFT::get_forwarded_object`: weak-reference and
+finalizer processing, the binding) may run at ANY point of ANY interleaving: whenever it answers
+`some c`, `c` is the one copy that was made and the winner has written it; in the window in which the
+winner is still copying or deciding (`BEING_FORWARDED`) and when the winner declined, it answers
+`none`. -/
+theorem reader_sound (hcs : immix = false → m0 = false) (h : Reachable immix oneStep m0 s) (c : Nat)
+    (hr : getForwarded s.sh = some c) : s.sh.copies = [c] ∧ s.sh.ptr = c ∧ s.sh.bits = FORWARDED := by
+  have inv := reachable_inv hcs h
+  unfold getForwarded at hr
+  split at hr
+  · rename_i hb
+    obtain ⟨c', hc', hp, _⟩ := inv.g.forwarded hb
+    injection hr with e
+    rw [← e, hp]; exact ⟨hc', rfl, hb⟩
+  · cases hr
+
+theorem reader_none_in_window (sh : Shared) (hb : sh.bits = BEING_FORWARDED ∨ sh.bits = NOT_TRIGGERED) :
+    getForwarded sh = none := by
+  unfold getForwarded
+  rcases hb with e | e <;> simp [e, BEING_FORWARDED, NOT_TRIGGERED, FORWARDED]
+
+/-- The answers a reader gets along the winner's path (what the harness op `fwdwin` observes on the real
+spaces): before the CAS, after the CAS, after the pointer store of the two-store layout (bits still
+`10`), and after an Immix winner that declined released the bits — `none` each time. -/
+theorem reader_window_trace :
+    getForwarded (init false).sh = none ∧
+    getForwarded (exec false false (init false) [(0, false), (0, false)]).sh = none ∧
+    getForwarded (exec false false (init false) [(0, false), (0, false), (0, false), (0, false)]).sh = none ∧
+    getForwarded (exec true false (init false) [(0, true), (0, true)]).sh = none ∧
+    getForwarded (exec true false (init false)
+      [(0, true), (0, true), (0, true), (0, true), (0, true), (0, true)]).sh = none := by decide
+
+/-- The reader that also accepts `BEING_FORWARDED` is observably wrong: after the CAS of thread 0 and
+before its pointer store it returns the stale word, a reference nobody copied to. -/
+theorem eager_reader_sees_unwritten_pointer :
+    ∃ s, Reachable false false false s ∧ getForwardedEager s.sh = some garbage ∧ s.sh.copies ≠ [garbage] :=
+  ⟨exec false false (init false) [(0, false), (0, false)], ⟨_, rfl⟩, by decide, by decide⟩
+
 /-! ## non-vacuity: concrete schedules -/
 
 /-- CopySpace, two-store layout, three racing threads: thread 0 wins the CAS, thread 1 loses the CAS
